@@ -133,6 +133,41 @@ def stdCase : P Verdict := do
       if Value.encode v != bytes then return .diff "model SCALE encoding of a value differs from parity-scale-codec's"
     return .ok (!vals.isEmpty)
 
+/-- all corpus types registered into ONE registry (identity collisions and order effects show here):
+    the registry must be a faithful image of the type graph from every (type, returned id) pair (C02, C05, C16),
+    and every value must decode from the shared registry through the id its type was given (C04) -/
+def stdAllCase : P Verdict := do
+  let docs ← P.bool
+  let roots ← P.list (do let t ← pTyExpr; let id ← P.nat; pure (t, id))
+  let reg ← P.registry
+  let vals ← P.list (do let j ← P.nat; let v ← pVal; let b ← P.str; pure (j, v, b))
+  let mut errs : List String := []
+  if !Spec.wf reg then errs := errs ++ ["C01: the shared registry of the built-in corpus is not dense and closed"]
+  -- model graph over declared identities
+  let nodes := closure docs 1000000 (roots.map (·.1)) []
+  let g1 : Nat → Option (Ty Nat) := fun i =>
+    match nodes[i]? with
+    | some e => (typeInfo docs e).map (fun ty => ty.map (fun r => nodes.idxOf (identity r)))
+    | none => none
+  let pairs := roots.map (fun p => (nodes.idxOf (identity p.1), p.2))
+  let fuel := 8 * (Spec.edgeCount (reg.map (·.ty)) + nodes.length) + 64
+  match Spec.iso g1 (Spec.regGraph reg) fuel pairs with
+  | .error e => errs := errs ++ [s!"C02: shared registry is not a faithful image of the built-in definitions: {e} ;; C05: {e} ;; C16: {e}"]
+  | .ok m =>
+    if reg.length != nodes.length then
+      errs := errs ++ [s!"C05: shared registry has {reg.length} entries for {nodes.length} distinct declared identities"]
+    if m.length != nodes.length then errs := errs ++ ["C05: correspondence does not cover every declared identity"]
+  let dfuel := reg.length + 64
+  for (j, v, bytes) in vals do
+    match roots[j]? with
+    | none => errs := errs ++ ["value refers to no root"]
+    | some (_, id) =>
+      match Value.decodeVal reg dfuel id bytes with
+      | some (v', []) => if v' != v then errs := errs ++ [s!"C04: value of root {j}: decoding from the shared registry yields a different structure / leaf values"]
+      | _ => errs := errs ++ [s!"C04: value of root {j}: the registry-directed decoder cannot read the encoding exactly from the shared registry"]
+  if !errs.isEmpty then return .specfail (" ;; ".intercalate errs.eraseDups)
+  return .ok true
+
 def metaCase : P Verdict := do
   let a ← pTyExpr
   let b ← pTyExpr
